@@ -1,11 +1,17 @@
 PROP = {
     "level": "exploration",
-    "technique": "runtime monitor over a real three-node switch/link/channel cluster: wire monitor on every settle/fail the forwarder sends upstream (preimage learned downstream; outgoing HTLC gone from the forwarder's on-disk commitments), conservation/dangling oracle at quiescence, injected delays, single-link flaps and cluster restarts, hold invoices settled/cancelled at PRNG instants; race detector in the thorough tier",
+    "technique": "runtime monitor over a real three-node switch/link/channel cluster: wire monitor on every settle/fail the forwarder sends upstream (preimage learned downstream; outgoing HTLC gone from the forwarder's on-disk commitments), conservation/dangling oracle at quiescence, injected delays, single-link flaps, graceful cluster restarts and crash-consistent whole-cluster power losses (global cut through all databases behind a kvdb interposer, boot from the copies), hold invoices settled/cancelled at PRNG instants; race detector in the thorough tier",
     "level_text": ("Batches of 5-20 concurrent payments (A->B->C, C->B->A, direct; amounts around dust/min_htlc; valid, unknown hash, "
                    "underpaid, fee-too-low and CLTV-delta-too-small onions, hold invoices that the receiver settles or cancels later) run through three real Switches with real links, circuit "
                    "maps and channels; message delays, 0-3 flaps of one channel's links with the switches running (links removed, channel reloaded on both "
                    "ends, channel_reestablish run for real) and 0-2 whole-cluster restarts (all in-flight messages lost, every node reloaded "
-                   "from its DBs, results re-queried by attempt id) are injected. Monitors: (1) every update_fulfill Bob sends upstream "
+                   "from its DBs, results re-queried by attempt id) are injected; in a quarter of the cases additionally a burst of 2-5 "
+                   "power losses in the middle of activity: every database of the cluster (per node: channel/switch database with circuit map, "
+                   "payment results and forwarding packages; invoice database) sits behind a kvdb interposer sharing one RW lock, a cut taken "
+                   "with no write transaction open (by the clock, or right behind the k-th commit - of any kind or of a PRNG-chosen kind - of a PRNG-chosen store with the committing handler frozen) "
+                   "copies all of them, the cluster runs on for a PRNG time and is then thrown away, and a new cluster with new invoice registries boots "
+                   "from the copies (monitor tables and preimage caches rolled back to the cut, every result re-queried by attempt id, hold decisions re-issued, "
+                   "a third of the payments launched only after the boots); the case is judged once, at its end. Monitors: (1) every update_fulfill Bob sends upstream "
                    "must follow an update_fulfill with that preimage on the outgoing channel; every update_fail upstream must find the "
                    "outgoing HTLC in none of Bob's on-disk commitments (fresh FetchChannel); at most one resolution kind per incoming "
                    "HTLC and at most one per connection; (2) at quiescence (observable state stable) no HTLC/circuit is left, every "
@@ -15,12 +21,13 @@ PROP = {
                    "idle-but-dirty detection (never idle => inconclusive); goroutine schedules are the runtime's, not enumerated; held on "
                    "the cases counted in evidence."),
     "design_ref": "DESIGN.md §3 C08",
-    "rule": ("case = (5-20 PRNG payments in 1-3 waves incl. hold invoices, delay profile, 0-3 link flaps and 0-2 cluster restarts at PRNG instants); non-trivial = at least "
-             "one payment settled; distinct = (restarts, number of distinct (direction,kind,outcome) classes, settled count bucket, delay profile)"),
+    "rule": ("case = (5-20 PRNG payments in 1-3 waves incl. hold invoices, delay profile, 0-3 link flaps, 0-2 cluster restarts and 0 or 2-5 consecutive power losses at PRNG instants); non-trivial = at least "
+             "one payment settled; distinct = (restarts, flaps, power loss none/idle/mid-activity, number of distinct (direction,kind,outcome) classes, settled count bucket, delay profile)"),
     "race_anchors": ["htlcswitch/link.go", "htlcswitch/switch.go", "htlcswitch/circuit_map.go", "htlcswitch/mailbox.go",
                      "htlcswitch/payment_result.go", "channeldb/forwarding_package.go", "lnwallet/channel.go"],
     "assumptions": ["cluster restart = simultaneous stop of all three nodes after which every node reloads from its databases",
-                    "in-memory invoice registries and preimage caches are carried over a restart (they are persistent in lnd)"],
+                    "invoice registries and preimage caches are carried over a graceful restart (they are persistent in lnd)",
+                    "power loss = all three nodes lose power at the same instant: each database holds exactly the write transactions committed before it, all messages in flight are lost; invoices (a database of their own per node in the fixture) and the preimage cache are cut at the same instant"],
     "units": [{
         "name": "threehop", "pkg": "htlcswitch", "test": "TestVerifC08",
         "files": ["htlcswitch/c08_test.go"],
@@ -28,7 +35,8 @@ PROP = {
         "shards": {"quick": 8, "thorough": 16},
         "gomaxprocs": 4,
         "watchdog": {"quick": 1200, "thorough": 7200},
-        "floors": {"quick": {"oracle_quiescence": 20, "oracle_upstream_resolution": 100, "nontrivial": 20},
-                   "thorough": {"oracle_quiescence": 400}},
+        "floors": {"quick": {"oracle_quiescence": 20, "oracle_upstream_resolution": 100, "nontrivial": 20,
+                             "powerloss_cases": 6, "powerloss_cuts": 18, "powerloss_cut_during_activity": 12},
+                   "thorough": {"oracle_quiescence": 400, "powerloss_cases": 80, "powerloss_cuts": 250, "powerloss_cut_during_activity": 150}},
     }],
 }
